@@ -29,6 +29,7 @@ theorem C29_facts :
     Gen.SrvSession.subIdByLen = false ∧ Gen.SrvSession.setModeUnknownContinues = true ∧
     Gen.SrvSession.setModeMismatchContinues = true ∧ Gen.SrvSession.delItemsUnknownContinues = true ∧
     Gen.SrvSession.delItemsMismatchContinues = true ∧
+    Gen.SrvSession.newSessionSignatureChecked = false ∧ Gen.SrvSession.verifySessionSignatureChecked = true ∧
     dispatcherInline = true ∧ responseWriteDeadline = false ∧ recoverers = [] ∧ refTypeDeleteLoop = false ∧
     signedChunkLengthChecked = true := by decide
 
@@ -69,14 +70,17 @@ theorem C29_crash_iff (st : St) (t : Tok) (r : Req) :
   cases r with
   | findServers => cases h : st.endpointsEmpty <;> simp [step, Req.name, handlerOf_findServers, body, safe, h, Out.isCrash]
   | getEndpoints => simp [step, Req.name, handlerOf_getEndpoints, body, safe, Out.isCrash]
-  | createSession k s c => cases s <;> cases c <;> simp [step, Req.name, handlerOf_createSession, body, safe, Out.isCrash]
+  | createSession k s c =>
+    cases s <;> cases c <;> cases hn : Gen.SrvSession.newSessionSignatureChecked <;>
+      simp [step, Req.name, handlerOf_createSession, body, safe, Out.isCrash, hn]
   | activateSession s ok =>
     simp only [step, Req.name, handlerOf_activateSession, safe]
     cases hf : findSession st t with
     | none => simp [Out.isCrash]
     | some x =>
       obtain ⟨xt, xa, xq, xr⟩ := x
-      cases s <;> cases ok <;> cases xr <;> simp [body, hf, Out.isCrash]
+      cases s <;> cases ok <;> cases xr <;> cases hv : Gen.SrvSession.verifySessionSignatureChecked <;>
+        simp [body, hf, Out.isCrash, hv]
   | closeSession => simp [step, Req.name, handlerOf_closeSession, body, safe, Out.isCrash]
   | read => cases h : st.accessAttr <;> simp [step, Req.name, handlerOf_read, body, safe, accessCheck, h, Out.isCrash]
   | write v => cases h : st.accessAttr <;> simp [step, Req.name, handlerOf_write, body, safe, accessCheck, h, Out.isCrash]
@@ -198,7 +202,9 @@ theorem C29_finding_findservers :
 theorem C29_finding_createsession_nonrsa :
     (step st2 0 (.createSession 3 true .nonRsa)).2 = .crash "SecureChannel.NewSessionSignature" ∧
     (step st2 0 (.createSession 3 false .nonRsa)).2 = .ok "" ∧
-    (step { st2 with sessions := [⟨3, false, 0, false⟩] } 3 (.activateSession true true)).2 = .crash "SecureChannel.VerifySessionSignature" := by
+    -- ActivateSession of such a session over a signed channel is refused since VerifySessionSignature
+    -- checks the key type (it used to be finding C29.activatesession-nonrsa-certificate)
+    (step { st2 with sessions := [⟨3, false, 0, false⟩] } 3 (.activateSession true true)).2 = .fault "BadSecurityChecksFailed" := by
   decide
 
 /-- a publishing interval of 0 ms, 0.5 ms, NaN (→ minimum int64) or anything whose nanosecond
